@@ -120,8 +120,7 @@ Fixpoint keys_nodupb (l : list string) : bool :=
   match l with [] => true | k :: r => negb (existsb (String.eqb k) r) && keys_nodupb r end.
 
 (* the guard, for a value nested inside another (an element).  What is left are restrictions of the modelled universe
-   (element type t, readable tokens, keys compared by value, the doc/body shape of DefLambda) and two names: the load
-   forms of hash tables and instances bind the variables table and inst, a flavor of that name would be shadowed. *)
+   (element type t, readable tokens, keys compared by value, the doc/body shape of DefLambda). *)
 Fixpoint loadable_in (v : obj) : bool :=
   match v with
   | Nil | T | Fix _ | Str _ | Big _ => true
@@ -139,16 +138,18 @@ Fixpoint loadable_in (v : obj) : bool :=
       && keys_distinct (map fst kvs)
   | Lam ll doc body => lam_ok ll doc body && (doc =? "")
   | Inst f slots =>
-      negb (f =? "inst")%string && negb (f =? "table")%string
-      && (fix go (l : list (string * obj)) : bool := match l with [] => true | (_, w) :: r => loadable_in w && go r end) slots
+      (fix go (l : list (string * obj)) : bool := match l with [] => true | (_, w) :: r => loadable_in w && go r end) slots
   | Flv _ _ _ _ _ _ => false     (* a flavor's load form is its defflavor form: Session.v *)
   | Opaque _ => false
   end.
 
-(* every instance inside v belongs to a flavor the environment knows, with exactly its instance variables *)
+(* every instance inside v belongs to a flavor the environment knows, with exactly its instance variables; no such
+   flavor is called table or inst: the load forms of hash tables and instances bind these two variables around the
+   forms of the values, a flavor of that name would be hidden from them *)
 Fixpoint insts_in (e : env) (v : obj) : bool :=
   match v with
   | Inst f slots =>
+      negb (f =? "inst")%string && negb (f =? "table")%string &&
       match lookup e f with
       | Some (Flv _ ivars _ _ _ _) => strings_eqb (map fst ivars) (map fst slots)
       | _ => false
